@@ -51,6 +51,7 @@ class _Sess:
         self.closed = False
         self.parent = None
         self.refused_ke_once = False
+        self.foreign = False
 
 
 class RefPeer:
@@ -69,6 +70,7 @@ class RefPeer:
             'pad_fill': k.get('pad_fill', r.choice(['zero', 'random', 'padlen'])),
             'prefer': k.get('prefer', r.choice(['mine', 'mine', 'reversed'])),       # preference order among the common transforms
             'latency': k.get('latency', r.choice([0.005, 0.02, 0.1])),
+            'byz_foreign_first': bool(k.get('byz_foreign_first', False)),
         }
         self.secret = bytes(r.getrandbits(8) for _ in range(16))
         self.sessions = {}         # spi_r -> _Sess
@@ -298,6 +300,17 @@ class RefPeer:
         if prop is None:
             self._c('no_proposal_chosen')
             return reply([self._notify(R.N_NO_PROPOSAL_CHOSEN)])
+        foreign = None
+        if self.k.get('byz_foreign_first'):
+            # Byzantine (but holding the right credential): the response lists, in front of the chosen ENCR transform, one that was never
+            # offered, and the responder keys the IKE_SA with it.  A conforming initiator refuses the response.
+            offered = {(t['type'], t['id'], t['keylen']) for t in prop['transforms']}
+            enc = next(t for t in pick if t['type'] == R.T_ENCR)
+            alt = 128 if enc['keylen'] == 256 else 256
+            if (R.T_ENCR, 12, alt) not in offered:
+                foreign = {'type': R.T_ENCR, 'id': 12, 'keylen': alt, 'attrs': [(14, alt)]}
+                pick = [foreign] + list(pick)
+                self._c('byz_foreign_first')
         suite = R.Suite.from_proposal({'transforms': pick})
         if ke['group'] != suite.dh:
             self._c('invalid_ke_on_init')
@@ -315,6 +328,7 @@ class RefPeer:
             return self.problem('ke_invalid', f'KE value of group {suite.dh} is not a valid public value: {ex}')
         s.keys = R.ike_keys(suite, s.ni, s.nr, s.spi_i, s.spi_r, shared)
         s.init_req = data
+        s.foreign = foreign is not None
         chosen = {'num': prop['num'], 'proto': R.PROTO_IKE, 'spi': b'', 'transforms': [dict(t) for t in pick]}
         payloads = [{'type': R.P_SA, 'proposals': [chosen]}, {'type': R.P_KE, 'group': suite.dh, 'data': R.dh_public(suite.dh, x)},
                     {'type': R.P_NONCE, 'data': s.nr}] + self._extras()
